@@ -31,7 +31,7 @@ PYTEST = ('/venv/bin/python -m pytest -q -p no:cacheprovider --timeout=900 --con
 # source file -> properties whose checks exercise it
 FILES = {
     't4_geom_convert/Kernel/Volume/CellConversion.py': ['C01', 'C05', 'C06', 'C13', 'C03'],
-    't4_geom_convert/Kernel/Volume/ConstructVolumeT4.py': ['C01', 'C08', 'C13', 'C04'],
+    't4_geom_convert/Kernel/Volume/ConstructVolumeT4.py': ['C01', 'C08', 'C13', 'C04', 'C05'],
     't4_geom_convert/Kernel/Volume/TreeFunctions.py': ['C01', 'C11'],
     't4_geom_convert/Kernel/Volume/CellInlining.py': ['C13', 'C01'],
     't4_geom_convert/Kernel/Volume/Lattice.py': ['C06', 'C07', 'C17'],
@@ -50,7 +50,7 @@ FILES = {
     't4_geom_convert/Kernel/Composition/CompositionConversionMCNPToT4.py': ['C10', 'C17'],
     't4_geom_convert/Kernel/GeomComp/ConstructGeomCompT4.py': ['C09', 'C08'],
     't4_geom_convert/Kernel/BoundaryCondition/CConversionBoundaryCondition.py': ['C16'],
-    't4_geom_convert/Kernel/FileHandlers/Parser/ParseMCNPCell.py': ['C15', 'C12', 'C05', 'C17'],
+    't4_geom_convert/Kernel/FileHandlers/Parser/ParseMCNPCell.py': ['C15', 'C12', 'C05', 'C17', 'C06'],
     't4_geom_convert/Kernel/FileHandlers/Parser/ParseMCNPSurface.py': ['C02', 'C03', 'C17'],
     't4_geom_convert/Kernel/FileHandlers/Writer/WriteT4Geometry.py': ['C08', 'C13', 'C01'],
     't4_geom_convert/Kernel/FileHandlers/Writer/WriteT4Composition.py': ['C10', 'C08'],
@@ -61,11 +61,11 @@ FILES = {
     'MIP/geom/semantics.py': ['C11', 'C03'],
     'MIP/geom/cells.py': ['C12', 'C15', 'C14'],
     'MIP/geom/transforms.py': ['C04'],
-    'MIP/mip/cards.py': ['C14'],
+    'MIP/mip/cards.py': ['C14', 'C01'],
     'MIP/mip/datacard.py': ['C12', 'C14'],
-    'MIP/mip/cellcard.py': ['C14', 'C15'],
-    'MIP/mip/blocks.py': ['C14'],
-    'MIP/mip/utils.py': ['C14', 'C09'],
+    'MIP/mip/cellcard.py': ['C14', 'C15', 'C01'],
+    'MIP/mip/blocks.py': ['C14', 'C01'],
+    'MIP/mip/utils.py': ['C14', 'C09', 'C01'],
 }
 
 CMP = {ast.Lt: '<', ast.LtE: '<=', ast.Gt: '>', ast.GtE: '>=', ast.Eq: '==', ast.NotEq: '!='}
